@@ -502,6 +502,7 @@ func main() {
 	repo := flag.String("repo", "/repo", "repository root")
 	leanOut := flag.String("lean", "", "Facts.lean to write")
 	jsonOut := flag.String("json", "", "facts.json to write")
+	progsOut := flag.String("progs", "", "Progs.lean to write (MiniGo translation of every function)")
 	flag.Parse()
 
 	p := load(*repo)
@@ -1105,6 +1106,20 @@ func main() {
 	}
 
 	f.lean.WriteString("\nend Jrpc.Generated\n")
+	if *progsOut != "" {
+		var w strings.Builder
+		w.WriteString("import Jrpc.MiniGo\n/-\n  GENERATED by /verif/harness/cmd/extract (minigo.go) from the repository's working tree — do not edit.\n  One MiniGo program per function and function literal of the library; JrpcProofs/Trans/*.lean relates them to the model.\n-/\nnamespace Jrpc.Generated.Progs\nopen Jrpc.MiniGo\n\n/-- bound on the iterations of a `for` loop with a condition (range loops need none) -/\ndef loopFuel : Nat := 64\n\n")
+		var index []string
+		translatePkg(p, "", vals, &w, &index)
+		hp := load(filepath.Join(*repo, "httpio"))
+		translatePkg(hp, "httpio.", hp.packageValues(), &w, &index)
+		ap := load(filepath.Join(*repo, "auth"))
+		translatePkg(ap, "auth.", ap.packageValues(), &w, &index)
+		fmt.Fprintf(&w, "\ndef allProgs : List String := %s\n\nend Jrpc.Generated.Progs\n", strList(index))
+		if err := os.WriteFile(*progsOut, []byte(w.String()), 0o644); err != nil {
+			fatal(err)
+		}
+	}
 	if *leanOut != "" {
 		if err := os.WriteFile(*leanOut, f.lean.Bytes(), 0o644); err != nil {
 			fatal(err)
